@@ -254,7 +254,11 @@ fn lit_nn(rng: &mut Rng, types: &[TypeDef], ty: &Ty, depth: usize) -> String {
     match ty {
         Ty::NonNull(t) => lit_nn(rng, types, t, depth),
         Ty::List(t) => {
-            if rng.chance(1, 5) { lit_nn(rng, types, t, depth) }      // a single value is coerced to a list of one
+            if rng.chance(1, 5) {
+                // a single value is coerced to a list of one -- but a list literal is never "a single value"
+                let inner = lit_nn(rng, types, t, depth);
+                if inner.starts_with('[') { format!("[{inner}]") } else { inner }
+            }
             else { let n = if depth > 2 { 0 } else { rng.below(3) }; format!("[{}]", (0..n).map(|_| lit(rng, types, t, depth + 1)).collect::<Vec<_>>().join(", ")) }
         }
         Ty::Named(n) => match n.as_str() {
@@ -625,7 +629,10 @@ fn mutation_kinds() -> Vec<&'static str> {
 /// a literal the specification rejects for `ty` (and nitrogql's rules as well)
 fn bad_lit(rng: &mut Rng, types: &[TypeDef], ty: &Ty) -> Option<String> {
     match ty {
-        Ty::NonNull(t) | Ty::List(t) => bad_lit(rng, types, t).or_else(|| if matches!(ty, Ty::NonNull(_)) { Some("null".into()) } else { None }),
+        // null is wrong for a non-null type (and only there)
+        Ty::NonNull(t) => Some(bad_lit(rng, types, t).unwrap_or_else(|| "null".to_string())),
+        // a wrong element; as a single (coerced) value only if it is not `null` or a list itself
+        Ty::List(t) => bad_lit(rng, types, t).map(|b| if b == "null" || b.starts_with('[') || rng.chance(1, 2) { format!("[{b}]") } else { b }),
         Ty::Named(n) => match n.as_str() {
             "Int" => Some((*rng.pick(&["\"1\"", "1.5", "true", "X", "{a: 1}"])).to_string()),
             "Float" => Some((*rng.pick(&["\"1\"", "true", "X"])).to_string()),
@@ -1218,8 +1225,8 @@ fn main() {
     let mut dist: BTreeMap<String, u64> = BTreeMap::new();
     let mut direct_failures: Vec<serde_json::Value> = vec![];
     let mut bump = |k: String, d: &mut BTreeMap<String, u64>| { *d.entry(k).or_insert(0) += 1; };
-    // quick: 48 models, 12 mutation kinds each (rotating through all kinds); thorough: 160 models, every mutation kind on each
-    let n_base = if thorough { 160 } else { 48 };
+    // quick: 48 models, 12 mutation kinds each (rotating through all kinds); thorough: 120 models, every mutation kind on each
+    let n_base = if thorough { 120 } else { 48 };
     let muts_per_base = if thorough { mutation_kinds().len() } else { 12 };
     let all_muts = mutation_kinds();
     let mut mut_cursor = 0usize;
@@ -1304,7 +1311,7 @@ fn main() {
         }
     }
     let _ = (&mut n_parse_err, &mut n_errs_total);
-    cases.shard_size = if thorough { 120 } else { ((cases.len() + 15) / 16).max(8) };
+    cases.shard_size = if thorough { 40 } else { ((cases.len() + 15) / 16).max(8) };
     cases.write(&args.out);
     write_meta(&args.out, &json!({
         "evaluations": cases.len(),
